@@ -567,6 +567,10 @@ class KEval:
                     out[k] = ite(c, a, b)
                 elif isinstance(a, Ref) and isinstance(b, Ref) and a.name == b.name:
                     out[k] = a
+                elif isinstance(a, Ref) and isinstance(b, Ref) and isinstance(b.init, tuple) and len(b.init) == 2 and b.init[0] == "copy" and _veq(b.init[1], a):
+                    out[k] = a   # `x = copy(x)` on one branch only: the same values either way (which storage holds them is the EFFECT engine's question, not this one's)
+                elif isinstance(a, Ref) and isinstance(b, Ref) and isinstance(a.init, tuple) and len(a.init) == 2 and a.init[0] == "copy" and _veq(a.init[1], b):
+                    out[k] = b
                 else:
                     out[k] = TOP
             else:
@@ -1163,6 +1167,12 @@ class KEval:
         args = [self.ev(a, env, S, f, guards, loops, depth) for a in e.args]
         kw = {k.arg: self.ev(k.value, env, S, f, guards, loops, depth) for k in e.keywords if k.arg}
 
+        if norm_text_(fn) in ("copy.copy", "copy.deepcopy") and len(args) == 1 and not kw and "copy" not in env:
+            # the copy module's copies of an array: the same values in new storage, like np.copy
+            a = args[0]
+            if isinstance(a, Ref):
+                return Ref(self.fresh(a.name + ".copy"), (), True, a.shape if not a.idx else None, ("copy", a), origin=hint)
+            return a
         if isinstance(fn, ast.Name) and fn.id not in env:
             if fn.id in ("float", "complex") and args:
                 return args[0]
